@@ -2,5 +2,5 @@
 # coqchk -o over every Props/Cxx.vo (independent re-check of the compiled development); writes notes/coqchk.txt
 cd /verif/coq
 : > /verif/notes/coqchk.txt
-ls Props/C*.v | sed 's|Props/\(C[0-9]*\)\.v|\1|' | xargs -P 5 -I{} sh -c 'o=$(timeout 3000 coqchk -silent -o -Q . FCA FCA.Props.{} 2>&1 | tail -14 | tr "\n" " "); echo "{}: $o" >> /verif/notes/coqchk.txt'
+ls Props/C*.v | sed 's|Props/\(C[0-9]*\)\.v|\1|' | xargs -P 3 -I{} sh -c 'o=$(timeout 3000 coqchk -silent -o -Q . FCA FCA.Props.{} 2>&1 | tail -14 | tr "\n" " "); echo "{}: $o" >> /verif/notes/coqchk.txt'
 sort -o /verif/notes/coqchk.txt /verif/notes/coqchk.txt
